@@ -5,3 +5,4 @@ pub(crate) use super::mutable::verif_kani as mutable;
 pub(crate) use super::signed_announce::verif_kani as signed_announce;
 pub(crate) use super::node::verif_kani as node;
 pub(crate) use super::routing_table::verif_kani as routing_table;
+pub(crate) use super::closest_nodes::verif_kani as closest_nodes;
